@@ -36,6 +36,9 @@ CHECKS = {
          "6.C14", "trace validation against ghost turn boards"),
  "C15": ("Every recorded state: printed text = Diagram!PrintPos, re-parse gives same board/side/move number/step 0/one-entry history/same text, same hash at turn start; "
          "(b) bounded enumeration of malformed diagram shapes under catch_unwind", "6.C15", "TLA+ Diagram module + trace validation + shape enumeration"),
+ "C16": ("TLC checks the notation design (263 action values, printing injective, square<->index<->bit conversions); every string up to length 3 (quick) / 4 (thorough) "
+         "over a 28-symbol alphabet incl. non-ASCII is parsed by the real parsers under catch_unwind in two build profiles and the outcome compared with the "
+         "declarative parser of Notation.tla; all values round-trip", "6.C16", "TLA+ notation spec + exhaustive bounded probe validated by TLC"),
  "C19": ("Every public query and every listed action is called at every visited state under catch_unwind in a build with overflow checks; a panic is an event "
          "without a spec action, so the trace is rejected; TLC checks the invariants behind the explicit panic sites", "6.C19",
          "trace validation (panic = unmatched event) + TLA+ invariants"),
@@ -51,7 +54,7 @@ def main():
             "thorough_cmd": "./check %s --tier thorough" % pid,
             "evidence_file": "/verif/evidence/%s.json" % pid,
             "replay_cmd_template": "./check %s --replay {path}" % pid,
-            "engine": "tla-trace",
+            "engine": "tla-probe" if pid in ("C16", "C17") else "tla-trace",
             "level_claimed": {"category": "model_checking", "text": text, "design_ref": "DESIGN.md section " + ref},
             "level_note": NOTE_T,
             "technique": tech,
@@ -61,7 +64,7 @@ def main():
           for p in props if p not in CHECKS]
     m = {
         "version": 1,
-        "setup_cmd": "cd /verif/harness && CARGO_NET_OFFLINE=true cargo build --offline --release",
+        "setup_cmd": "cd /verif/harness && CARGO_NET_OFFLINE=true cargo build --offline --release && CARGO_NET_OFFLINE=true cargo build --offline --profile plain",
         "hooks": {"guard": "arimaa_engine_step_verif",
                   "enable": "RUSTFLAGS='--cfg arimaa_engine_step_verif' (reserved; no hook is currently needed: the public API exposes the abstract state)",
                   "baseline_off_cmd": "cd /repo && cargo test --workspace --no-fail-fast --offline",
